@@ -92,6 +92,29 @@ fn create_cstore_response(
     ])
 }
 
+/// Derive the name of the file in which to store an instance
+/// from the SOP instance UID given by the peer.
+///
+/// The outcome is always a single path component:
+/// characters which cannot be part of a UID
+/// (such as path separators) are replaced,
+/// so that files are only ever created directly in the output directory.
+fn instance_file_name(sop_instance_uid: &str) -> String {
+    let mut name: String = sop_instance_uid
+        .trim_end_matches('\0')
+        .chars()
+        .map(|c| {
+            if c.is_ascii_alphanumeric() || matches!(c, '.' | '-' | '_') {
+                c
+            } else {
+                '_'
+            }
+        })
+        .collect();
+    name.push_str(".dcm");
+    name
+}
+
 fn create_cecho_response(message_id: u16) -> InMemDicomObject<StandardDataDictionary> {
     InMemDicomObject::command_from_element_iter([
         DataElement::new(tags::COMMAND_FIELD, VR::US, dicom_value!(U16, [0x8030])),
